@@ -261,6 +261,23 @@ def run(ck):
                 v = v.args[0] if v.args else v.func.value
             ok = isinstance(v, ast.Subscript) and isinstance(v.value, ast.Name) and norm(v.slice) == pn
             if not ok and "start" in norm(res.expand_node(r_.value)):
+                # padding alone, counted from the window: the number of elements of range(start, end, step) is a CEILING division
+                # ((end - start + step - 1) // step, -(-(end - start) // step), len(range(...))); a plain floor `(end - start) // step` is
+                # one short whenever the step does not divide the window
+                vx = res.expand_node(r_.value)
+                floors = [x for x in ast.walk(vx) if isinstance(x, ast.BinOp) and isinstance(x.op, ast.FloorDiv) and "step" in norm(x.right)]
+                plain_floor = False
+                for fl_ in floors:
+                    num = norm(fl_.left).replace(" ", "")
+                    ceil_adjust = ("+step-1" in num or "step-1+" in num or "-1+step" in num or num.startswith("-(") or num.startswith("-"))
+                    neg_outer = isinstance(getattr(fl_, "_parent", None), ast.UnaryOp)
+                    if not ceil_adjust and not neg_outer:
+                        plain_floor = True
+                if plain_floor:
+                    ck.ob("R5", "StrPatchwork.__getitem__:strided-window-count", False, m.where(r_),
+                          "padding for a strided window is counted with a floor division (`%s`): range(start, end, step) has "
+                          "ceil((end - start) / step) elements, one more whenever the step does not divide the window" % norm(r_.value)[:80])
+                    continue
                 # a padding amount computed from the slice start can be right: not decided here
                 ck.undet("R5", "StrPatchwork.__getitem__:slice-of-one-buffer", "padding computed from the slice start: `%s`" % norm(r_.value)[:80])
                 ok = True
